@@ -71,8 +71,10 @@ func rsetLine(routes []rroute) string {
 	return strings.Join(parts, " ")
 }
 
-// static texts: also some that sort after '{' ('~', '|'), before every letter ('0', '-') and upper case
-var segLits = []string{"a", "ab", "b", "c", "abc", "u", "a-b", "x.y", "~me", "~", "|x", "Zed", "0", "_x"}
+// static texts: also some that sort after '{' ('~'), before every letter ('0', '-') and upper case; only bytes
+// that may stand unescaped in a URI path ('|' may not: a valid request spells it %7C, which is not the template's
+// literal byte — such a template is outside the domain)
+var segLits = []string{"a", "ab", "b", "c", "abc", "u", "a-b", "x.y", "~me", "~", "~~", "Zed", "0", "_x"}
 
 func genTemplate(rng *lp.Rand) string {
 	nseg := 1 + rng.Intn(3)
